@@ -145,11 +145,15 @@ def do_thread_plan(world, plan):
     Host = classes[plan.get("use_cls", "host")] if plan.get("use_cls", "host") in classes else classes["host"]
     out = {}
     if use == "spec_class_lookup":
-        out["md"] = type(Host.__spec_class__).__name__
+        md = Host.__spec_class__
+        # whoever gets hold of the metadata gets it complete (attribute names in declaration order, key, frozen)
+        out["md"] = [type(md).__name__, list(getattr(md, "attrs", {}) or {}), repr(getattr(md, "key", None)),
+                     sorted(getattr(md, "annotations", {}) or {})]
     elif use == "fields_lookup":
         out["fields"] = [f.name for f in dataclasses.fields(Host)] if plan.get("dc") else sorted(Host.__dataclass_fields__)
     elif use == "hasattr":
         out["has"] = hasattr(Host, "__spec_class__")
+        out["has_attrs"] = list(getattr(Host.__dict__.get("__spec_class__"), "attrs", None) or [])
     elif use == "via_subclass" and "sub" in classes:
         out["subinst"] = abs_instance(classes["sub"](**{k: world.build(v, False) for k, v in plan["sub_kw"].items()}))
     cls = classes[role]
